@@ -659,6 +659,19 @@ def j_c15(sh, a, b):
     return res
 
 
+def js_c15(sh, ctx):
+    """the codec through its hooks and through ReadPacket (j_c15); property lengths at the boundaries inside real frames of
+    every type, read by the strict specification parser, which accepts minimal variable byte integers only (js_c02's oracle)"""
+    if sh['cls'].startswith('proplen'):
+        out = js_c02(sh, ctx)
+        for r in out:
+            for v in r['concrete']:
+                v['what'] = 'property length at a variable-byte-integer boundary: ' + v['what']
+            r['hist'] = [h for h in r.get('hist', []) if h.startswith('kind=')] + ['proplen']
+        return out
+    return per_case(j_c15)(sh, ctx)
+
+
 # ------------------------------------------------------------------------------------------ C16
 
 KINDS = ["Undefined", "Connect", "ConnAck", "Publish", "PubAck", "PubRec", "PubRel", "PubComp", "Subscribe", "SubAck",
@@ -1000,8 +1013,8 @@ PROPS = {
              extra=extra_c13),
     'C14': P(js_c14, [('pool', 500)], [('pool', 20000)],
              'histories over a pool of 2..5 packets (decode, scribble over the decoder input, set, encode) with all packets viewed after every step; distinct = histories containing a scribble'),
-    'C15': P(per_case(j_c15), [('vb', 4000), ('vbframe', 64)], [('vb', 100000), ('vbframe', 2000)],
-             'boundary values, random values, random byte sequences through the hooks, against a closed-form oracle; thorough adds the exhaustive Go sweep; distinct = distinct op lines'),
+    'C15': P(js_c15, [('vb', 4000), ('vbframe', 64), ('proplen', 104)], [('vb', 100000), ('vbframe', 2000), ('proplen', 1040)],
+             'boundary values, random values, random byte sequences through the hooks, against a closed-form oracle; remaining lengths at the boundaries read by ReadPacket from split streams (vbframe); property sections of exactly 126..129 and 16382..16385 bytes in every packet type, read by the strict specification parser (proplen); thorough adds the exhaustive Go sweep; distinct = distinct op lines'),
     'C16': P(per_case(j_c16), [('first', 1)], [('first', 12)],
              'all 256 first bytes x generated bodies valid for the selected type; distinct = first bytes', ),
     'C17': P(per_case(j_c17), [('wf', 1500)], [('wf', 40000)],
